@@ -72,6 +72,15 @@ class Closure:
         self.node, self.env = node, env
 
 
+class InlineDef:
+    """A module-level helper of the real source that has no contract: a call interprets its body (the helper is verified as part of
+    its caller, so extracting code into a helper does not leave the subset)."""
+
+    def __init__(self, node):
+        self.node = node
+        self.name = node.name
+
+
 class GenExp:
     """An unevaluated generator expression / reversed(...) / map(...) view."""
 
@@ -382,7 +391,54 @@ class Interp:
         mc = getattr(self, 'module_consts', None)
         if mc and name in mc:
             return mc[name]          # a module-level NAME = <int | str | bool literal>, bound once and never rebound
+        md = getattr(self, 'module_defs', None)
+        if md and name in md:
+            return InlineDef(md[name])
         raise OutsideSubset('unknown name %s' % name)
+
+    def call_inline(self, fn, args, kwargs):
+        node = fn.node
+        a = node.args
+        if a.vararg or a.kwarg or a.kwonlyargs or a.posonlyargs or node.decorator_list:
+            raise OutsideSubset('helper %s: signature outside the inlinable shape' % fn.name)
+        for n in ast.walk(node):
+            if isinstance(n, (ast.Yield, ast.YieldFrom, ast.Global, ast.Nonlocal, ast.While, ast.For)) or \
+                    (isinstance(n, (ast.FunctionDef, ast.ClassDef)) and n is not node):
+                raise OutsideSubset('helper %s: body outside the inlinable shape (loops / generators / nested definitions need a contract)' % fn.name)
+        depth = getattr(self, 'inline_depth', 0)
+        if depth >= 3:
+            raise OutsideSubset('helper %s: inlining depth' % fn.name)
+        names = [p.arg for p in a.args]
+        if len(args) > len(names) or any(k not in names for k in kwargs):
+            raise SymRaise('TypeError', 'arguments of %s' % fn.name)
+        env = {}
+        for n_, v in zip(names, args):
+            env[n_] = v
+        for k, v in kwargs.items():
+            if k in env:
+                raise SymRaise('TypeError', 'arguments of %s' % fn.name)
+            env[k] = v
+        dflt = dict(zip(names[len(names) - len(a.defaults):], a.defaults))
+        saved = self.env
+        for n_ in names:
+            if n_ not in env:
+                if n_ not in dflt:
+                    raise SymRaise('TypeError', 'arguments of %s' % fn.name)
+                self.env = {}
+                try:
+                    env[n_] = self.ev(dflt[n_])
+                finally:
+                    self.env = saved
+        self.env = env
+        self.inline_depth = depth + 1
+        try:
+            self.exec_block(node.body)
+            return None
+        except ReturnSig as r:
+            return r.value
+        finally:
+            self.env = saved
+            self.inline_depth = depth
 
     def callee_map(self):
         m = getattr(self.cset, '_callee_map', None)
@@ -698,6 +754,8 @@ class Interp:
             hi = self.ev(sl.upper) if sl.upper else None
             if (lo is None or isinstance(lo, int)) and (hi is None or isinstance(hi, int)) and sl.step is None:
                 return base[lo:hi]
+        if is_z3(base) and isinstance(sl, ast.Slice) and getattr(U, 'options', {}).get(self.sort_of(base)) == 'Str':
+            base = self.coerce(base, 'Str')          # slicing an Optional[str]: None is a TypeError
         if is_z3(base) and self.sort_of(base) == 'Str' and isinstance(sl, ast.Slice) and sl.step is None:
             lo = self.ev(sl.lower) if sl.lower is not None else 0
             hi = self.ev(sl.upper) if sl.upper is not None else None
@@ -972,6 +1030,8 @@ class Interp:
             h = getattr(self.U, 'call_hooks', {}).get(self.sort_of(fn))
             if h:
                 return h(self, fn, args, kwargs, node)
+        if isinstance(fn, InlineDef):
+            return self.call_inline(fn, args, kwargs)
         if isinstance(fn, ClassVal):
             return self.call_class(fn.name, args, kwargs)
         if isinstance(fn, Closure):
@@ -1070,6 +1130,10 @@ class Interp:
             if sn == 'Str':
                 if name == 'rstrip' and not args:
                     return self.translator.builtin_fn('str_rstrip', ['Str'], 'Str')(obj)
+                if name == 'startswith' and len(args) == 1 and not kwargs and self.sort_of(args[0]) == 'Str':
+                    return z3.PrefixOf(self.coerce(args[0], 'Str'), obj)
+                if name == 'endswith' and len(args) == 1 and not kwargs and self.sort_of(args[0]) == 'Str':
+                    return z3.SuffixOf(self.coerce(args[0], 'Str'), obj)
         raise OutsideSubset('method %s on %r' % (name, self.sort_of(obj) or obj))
 
     def rebind_target(self, node, newval):
